@@ -1277,7 +1277,7 @@ def emit(repo, pid, out_path):
     return recs
 
 
-def check(repo, pid, scratch, coq_dir, coq_q):
+def check(repo, pid, scratch, coq_dir, coq_q, thorough=False):
     """translate + coqc; returns {"kernels": [...], "ok": bool, ...}"""
     if pid not in KERNELS:
         return None
@@ -1329,6 +1329,20 @@ def check(repo, pid, scratch, coq_dir, coq_q):
                 f.write(text)
         except OSError:
             pass
+    if thorough and recs and all(r["status"] == "proved" for r in recs) and os.environ.get("VERIF_COQCHK", "1") == "1":
+        # thorough tier: the whole generated file is compiled once more and re-checked by the independent checker
+        t1 = time.time()
+        r = subprocess.run(["timeout", "600", "coqc"] + coq_q + ["-Q", gen_dir, "QSrcTie", path], capture_output=True, text=True, cwd=coq_dir)
+        if r.returncode == 0:
+            r = subprocess.run(["timeout", "1500", "coqchk", "-silent", "-o"] + coq_q[:9] + ["-Q", gen_dir, "QSrcTie", "QSrcTie.SrcTie_%s" % pid],
+                               capture_output=True, text=True, cwd=coq_dir)
+        res["coqchk_ok"] = (r.returncode == 0)
+        res["coqchk_s"] = round(time.time() - t1, 1)
+        res["coqchk_tail"] = (r.stdout + r.stderr)[-900:]
+        if r.returncode != 0:
+            for rec in recs:
+                rec["status"] = "unproved"
+                rec["detail"] = "coqchk on the generated file failed: " + res["coqchk_tail"][-300:]
     res["proved"] = sum(1 for r in recs if r["status"] == "proved")
     res["total"] = len(recs)
     res["ok"] = res["proved"] == res["total"]
